@@ -55,6 +55,12 @@ Definition get_list (m : meta) (help : bool) : res (option (list meta)) :=
   | MNV _ _ => if help then Diag DValue else Ok None
   end.
 
+(* expect_word: a bare word, not `w(..)` nor `w = v` *)
+Definition expect_word (m : meta) : res unit := match m with MPath _ => Ok tt | _ => Diag DValue end.
+(* edit.rs get_list: an empty list `name()` has no meaning inside edit *)
+Definition get_list_ne (m : meta) (help : bool) : res (option (list meta)) :=
+  o <- get_list m help ;; match o with Some [] => Diag DEmpty | _ => Ok o end.
+
 Definition get_lit (m : meta) : res value :=
   match m with MNV _ VExpr => Diag DValue | MNV _ v => Ok v | _ => Diag DValue end.
 Definition get_lit_str (m : meta) : res string :=
@@ -79,8 +85,8 @@ Definition is_start (c : ascii) : bool :=
 Definition is_cont (c : ascii) : bool := is_start c || (let n := nat_of_ascii c in Nat.leb 48 n && Nat.leb n 57).
 Fixpoint all_cont (s : string) : bool := match s with EmptyString => true | String c r => is_cont c && all_cont r end.
 Definition is_ident_str (s : string) : bool := match s with EmptyString => false | String c r => is_start c && all_cont r end.
-(* format_ident!("{s}") *)
-Definition format_ident (s : string) : res string := if is_ident_str s then Ok s else Panic.
+(* attribute::str_to_ident: the string must lex as one identifier, else a diagnostic *)
+Definition format_ident (s : string) : res string := if is_ident_str s then Ok s else Diag DValue.
 
 (* ---------- configuration ---------- *)
 Inductive lib := Std | Smol | Tokio | AsyncStd.
@@ -134,9 +140,10 @@ Definition is_none (t : etuple) : bool :=
 
 Definition abort_if_is_file (m : meta) : res unit := if is_ident (mpath m) "file" then Diag DNestedFile else Ok tt.
 Definition get_file_list (m : meta) : res (list meta) :=
-  o <- get_list m true ;; match o with Some l => Ok l | None => Diag DEdit end.
+  o <- get_list_ne m true ;; match o with Some l => Ok l | None => Diag DEdit end.
 
 Definition add_if_unique (v : names) (m : meta) (file : bool) : res names :=
+  _ <- expect_word m ;;
   x <- get_ident m ;;
   match v with
   | Some l => if existsb (fun p => String.eqb x (fst p)) l then Diag DDup else Ok (Some (l ++ [(x, file)])%list)
@@ -145,12 +152,12 @@ Definition add_if_unique (v : names) (m : meta) (file : bool) : res names :=
 
 (* parse_sol_nested_idents on the pair (names, scope-flag) *)
 Definition nested_idents (os : names * bool) (m : meta) (file : bool) : res (names * bool) :=
-  o <- get_list m true ;;
+  o <- get_list_ne m true ;;
   match o with
   | Some l =>
       v <- fold_res (fun (v : names) (x : meta) =>
              if is_ident (mpath x) "file" then
-               ofl <- get_list x true ;;
+               ofl <- get_list_ne x true ;;
                match ofl with
                | Some fl => fold_res (fun (v : names) (fm : meta) => if file then Diag DNestedFile else add_if_unique v fm true) fl v
                | None => add_if_unique v x file
@@ -164,6 +171,7 @@ Definition sol_nested (e : edit) (m : meta) (sol file : bool) : res edit :=
   let t := sel sol e in
   let p := mpath m in
   if is_ident p "def" then
+    _ <- expect_word m ;;
     if t_def t then Diag DDup
     else Ok (put sol {| t_def := true; t_def_f := if file then true else t_def_f t; t_imp := t_imp t; t_imp_f := t_imp_f t; t_trt := t_trt t; t_trt_f := t_trt_f t |} e)
   else if is_ident p "imp" then
@@ -185,7 +193,7 @@ Definition parse_sol (e : edit) (m : meta) (file : bool) : res edit :=
   sol <- (if is_ident p "script" then (if is_none (e_script e) then Ok true else Diag DDup)
           else if is_ident p "live" then (if is_none (e_live e) then Ok false else Diag DDup)
           else Diag DEdit) ;;
-  o <- get_list m true ;;
+  o <- get_list_ne m true ;;
   match o with
   | Some l =>
       fold_res (fun (e : edit) (met : meta) =>
@@ -204,11 +212,11 @@ Definition all_everything (e : edit) : edit :=
 
 (* EditActor::parse (macro `actor`) *)
 Definition edit_parse (e : edit) (m : meta) : res edit :=
-  o <- get_list m true ;;
+  o <- get_list_ne m true ;;
   match o with
   | Some [mv] =>
       if is_ident (mpath mv) "file" then
-        ol <- get_list mv true ;;
+        ol <- get_list_ne mv true ;;
         match ol with
         | Some l => fold_res (fun (e : edit) (x : meta) => _ <- abort_if_is_file x ;; parse_sol e x true) l e
         | None => Ok (all_everything e)
@@ -223,19 +231,24 @@ Definition edit_parse (e : edit) (m : meta) : res edit :=
   | None => Ok {| e_remove := e_remove e; e_script := set_all (e_script e); e_live := set_all (e_live e) |}
   end.
 
-(* EditActor::parse_family (macro `family` AND, because the member prototype keeps mac == Family, its `actor(..)` members) *)
+(* EditActor::parse_family (options of the macro `family` itself; its `actor(..)` members use edit_parse) *)
 Definition edit_parse_family (e : edit) (m : meta) : res edit :=
-  o <- get_list m true ;;
+  o <- get_list_ne m true ;;
   match o with
   | Some [mv] =>
       if is_ident (mpath mv) "file" then
-        ol <- get_list mv true ;;
+        ol <- get_list_ne mv true ;;
         match ol with
         | Some l => fold_res (fun (e : edit) (x : meta) => _ <- abort_if_is_file x ;; sol_nested e x false true) l e
         | None => Ok (put false (set_all_active (set_all (e_live e))) e)
         end
       else sol_nested e mv false false
-  | Some _ => sol_nested e m false false          (* the `edit(..)` meta itself: never def / imp / trt *)
+  | Some l =>
+      fold_res (fun (e : edit) (x : meta) =>
+        if is_ident (mpath x) "file" then
+          fl <- get_file_list x ;;
+          fold_res (fun (e : edit) (y : meta) => _ <- abort_if_is_file y ;; sol_nested e y false true) fl e
+        else sol_nested e x false false) l e
   | None => Ok (put false (set_all (e_live e)) e)
   end.
 
@@ -274,6 +287,7 @@ Definition filter_parse (m : meta) (incl : bool) : res fset :=
   match o with
   | Some l =>
       if check_path_set l [] then
+        _ <- fold_res (fun (_ : unit) x => expect_word x) l tt ;;
         ids <- get_idents l ;;
         if existsb is_ctor_name ids then Diag DFilter
         else Ok (if incl then FInclude ids else FExclude ids)
@@ -304,6 +318,9 @@ Definition parse_shared (c : acfg) (m : meta) (k : okey) : option (res acfg) :=
 Definition step_actor (c : acfg) (m : meta) : res acfg :=
   x <- get_ident m ;;
   let k := classify x in
+  match k with
+  | KEdit => e <- edit_parse (a_edit c) m ;; Ok (set_edit e c)      (* `actor` and family members share the actor grammar *)
+  | _ =>
   match parse_shared c m k with
   | Some r => r
   | None =>
@@ -316,9 +333,10 @@ Definition step_actor (c : acfg) (m : meta) : res acfg :=
       | KInteract => match m with MPath _ => Ok (set_interact true c) | _ => Diag DValue end
       | KInclude => match a_filter c with Some _ => Diag DFilter | None => f <- filter_parse m true ;; Ok (set_filter (Some f) c) end
       | KExclude => match a_filter c with Some _ => Diag DFilter | None => f <- filter_parse m false ;; Ok (set_filter (Some f) c) end
-      | KDebug => Ok (set_debug true c)
+      | KDebug => _ <- expect_word m ;; Ok (set_debug true c)
       | _ => Diag DUnknown
       end
+  end
   end.
 
 Definition parse_nested_actor (c : acfg) (l : list meta) : res acfg :=
@@ -334,8 +352,8 @@ Definition step_family (st : acfg * list meta) (m : meta) : res (acfg * list met
   | None =>
       match k with
       | KActor => Ok (c, (mems ++ [m])%list)
-      | KRwLock => Ok (set_rcv RRwLock c, mems)
-      | KMutex => Ok (set_rcv RMutex c, mems)
+      | KRwLock => _ <- expect_word m ;; Ok (set_rcv RRwLock c, mems)
+      | KMutex => _ <- expect_word m ;; Ok (set_rcv RMutex c, mems)
       | _ => Diag DUnknown
       end
   end.
@@ -400,18 +418,19 @@ Definition mac_from_ident (s : string) : option mac :=
 
 Definition step_example (e : ecfg) (m : meta) : res ecfg :=
   let p := mpath m in
-  if is_ident p "main" then Ok {| x_path := x_path e; x_main := true; x_expand := x_expand e |}
+  if is_ident p "main" then _ <- expect_word m ;; Ok {| x_path := x_path e; x_main := true; x_expand := x_expand e |}
   else if is_ident p "path" then s <- meta_get_path m ;; Ok {| x_path := Some s; x_main := x_main e; x_expand := x_expand e |}
   else if is_ident p "expand" then
     o <- get_list m false ;;
     match o with
     | Some ml =>
+        _ <- fold_res (fun (_ : unit) x => expect_word x) ml tt ;;
         ids <- get_idents ml ;;
         ms <- fold_res (fun acc s => match mac_from_ident s with Some k => Ok (acc ++ [k])%list | None => Diag DExample end) ids [] ;;
         Ok {| x_path := x_path e; x_main := x_main e; x_expand := ms |}
     | None => Diag DExample
     end
-  else Ok e.
+  else Diag DUnknown.
 
 Definition parse_example (l : list meta) : res ecfg :=
   if check_path_set l [] then
